@@ -167,6 +167,14 @@ def n_enum(P):
 
 # ------------------------------------------------------------------ random configurations
 
+def _hook_double(obj, v):
+    return v * 2 if isinstance(v, (int, float)) and not isinstance(v, bool) else v
+
+
+def _hook_plus_one(obj, v):
+    return v + 1 if isinstance(v, (int, float)) and not isinstance(v, bool) else v
+
+
 class Dummy:
     pass
 
@@ -197,6 +205,9 @@ def random_config(rng):
                 cfg['bounds'] = (lo, hi)
                 cfg['inclusive_bounds'] = (rng.random() < 0.5, rng.random() < 0.5)
                 extra += eps_set(lo, hi, 'num' if t == 'Number' else 'int')
+        if rng.random() < 0.15:
+            # deprecated but supported: a hook that transforms the value before it is validated and stored
+            cfg['set_hook'] = rng.choice([_hook_double, _hook_plus_one])
     elif t in ('Tuple', 'NumericTuple'):
         cfg['length'] = rng.choice([0, 1, 2, 3])
     elif t == 'List':
@@ -324,6 +335,8 @@ def config_class(t, cfg):
             parts.append(f'i{int(v[0])}{int(v[1])}')
         elif k in ('objects',):
             parts.append('objs-' + type(v).__name__)
+        elif k == 'set_hook':
+            parts.append('hook')
         elif k in ('item_type', 'class_'):
             parts.append(k + '=' + (','.join(x.__name__ for x in v) if isinstance(v, tuple) else v.__name__))
         else:
@@ -348,7 +361,7 @@ def run_case(idx, rng, P, rep):
     if default is None and not cfg.get('allow_None'):
         cfg = dict(cfg, allow_None=True)
     ccls = config_class(t, cfg)
-    cdesc = {k: repr(v) for k, v in cfg.items()}
+    cdesc = {k: (v.__name__ if k == 'set_hook' else repr(v)) for k, v in cfg.items()}
 
     def viol(key, msg, v, route):
         rep.violation(f'C01/{t}/{key}', f'{t}({cdesc}) route={route} value={v!r} ({cand_class(v)}): {msg}',
@@ -408,7 +421,12 @@ def run_case(idx, rng, P, rep):
                     cfg_eff = dict(cfg, allow_None=True)
                 elif t in ('Tuple', 'NumericTuple', 'XYCoordinates') and isinstance(v, tuple) and v:
                     cfg_eff = dict(cfg, length=len(v))
-            verdict = spec.accepts(t, cfg_eff, v)
+            hook = cfg.get('set_hook')
+            stored = v
+            if hook is not None and route != 'create':
+                # (a declaration default is not passed through the hook)
+                stored = hook(None, v)
+            verdict = spec.accepts(t, {k: x for k, x in cfg_eff.items() if k != 'set_hook'}, stored)
             if mode == 'inherited' and v is None:
                 # allow_None is computed from each declaration on its own (explicit flag, or a None default - also the
                 # type's own None default), it is not inherited: not judged here (C11 models it)
@@ -474,9 +492,11 @@ def run_case(idx, rng, P, rep):
                 rep.count('accepted')
                 got = holder.p if route != 'deser' else holder.p
                 if route == 'deser':
-                    ok = type(got) is type(v) and (got == v or (got != got and v != v))
+                    ok = type(got) is type(stored) and (got == stored or (got != got and stored != stored))
                 elif t == 'Event' and route != 'create':
                     ok = got is False or got is v       # an Event resets itself to False once its watchers have run
+                elif hook is not None:
+                    ok = type(got) is type(stored) and (got == stored or (got != got and stored != stored))
                 else:
                     ok = got is v
                 if not ok:
